@@ -31,8 +31,19 @@ Definition expr_prov (e : cexpr) : option DrawingPrims.prov :=
   | EParam a => Some (DrawingPrims.PArg a)
   | EIf (ENot (EParam r)) (EParam a) (ENeg (EParam b)) =>
       if label_eqb r q_reverse && label_eqb a b then Some (DrawingPrims.PNegIfReverse a) else None
+  (* the same selection spelled `-a if reverse else a` (see [neg_if_reverse_spellings] below: the two expressions evaluate alike) *)
+  | EIf (EParam r) (ENeg (EParam b)) (EParam a) =>
+      if label_eqb r q_reverse && label_eqb a b then Some (DrawingPrims.PNegIfReverse a) else None
   | _ => None
   end.
+(* `x if not c else y` and `y if c else x` are the same expression for the interpreter of Model/ElementsPrims.v, whatever c, x, y
+   are (also when c is not a bool: both answer the same error) *)
+Lemma neg_if_reverse_spellings (R : fops) (pi : R) (env store : dict (jval R)) (c x y : cexpr) :
+  eval R pi env store (EIf (ENot c) x y) = eval R pi env store (EIf c y x).
+Proof.
+  cbn [eval]. destruct (eval R pi env store c) as [v|err]; [|reflexivity]. cbn [bind].
+  destruct (truth R v) as [b|err]; [|reflexivity]. cbn [bind]. destruct b; reflexivity.
+Qed.
 (* private attributes written by anything but a top-level plain store *)
 Fixpoint stmt_touches (s : cstmt) : list label :=
   match s with SStore f _ => [f] | SAug f _ _ => [f] | SIf _ s' => stmt_touches s' | _ => [] end.
